@@ -538,3 +538,180 @@ Theorem C06_nonvacuous :
   exists h', run_ops3 ex6 empty_heap = Ret (spec_results3 S0 ex6, h') /\ Abs3 h' (spec_run3 S0 ex6).
 Proof. exact ex6_history. Qed.
 Print Assumptions C06_nonvacuous.
+
+(** ------------------------------------------------------------------ 7. the EXTRACTED interpreter
+
+    The theorems above speak about [run_op3], which takes block identities as arguments.  The
+    correspondence check extracts and RUNS another interpreter against the C library:
+    [CoreOps.run_op oracle st o] (CoreOps.v), whose operations [CoreOps.op] name their arguments by
+    HANDLES into two pools [st] (items, caller strings), which pushes every returned [cJSON *] as a
+    new handle and clears the handles of released blocks after every call.  Both interpreters call
+    the same functions of CoreDefs.v.  This section transports sections 1 and 6 (and the ledger
+    of C07) to that interpreter (CoreOpsBridge.v, CoreOpsBridgeHist.v, CoreOpsBridgeOwned.v).
+
+    [tr V st o] translates a correspondence-level operation, in the pools [st] and a view [V] of what
+    the caller can observe (the identity the next caller string gets, item->string,
+    item->valuestring), into the caller strings it declares ([t_pre]), the proof-level call on the
+    identities the handles denote ([t_main]; handle k = [nth k (st_items st)], NULL = [None]), the
+    pools after the declarations ([t_st]) and the kind of its result ([t_kind]).  Without
+    counterpart ([tr] = None): OInitHooks, OMalloc, OFree, OSetChildRaw, OSetLinksRaw, OChain,
+    OChildDepth, ODuplicate.  OArrayForEach is the caller's loop (no call; kind [KEach]). *)
+From CJ Require CoreOps CoreOpsBridgeEx.
+From CJ Require Import CoreOpsBridge CoreOpsBridgeHist CoreOpsBridgeOwned.
+
+(** THE COMMUTATION LEMMA: for every translatable operation, one step of the extracted interpreter
+    (allocator that never refuses) IS the translated operations run by [run_ops3] — the same
+    CoreDefs call on the same arguments, hence the same heap and the same error outcome if any —,
+    then the result encoding [finish] (the returned identity is pushed exactly for the kind
+    [KPush]), then the sweep of the pools.  No invariant, no rule is assumed. *)
+Theorem C06_extracted_commutes : forall V st o t h,
+  view_ok V h -> tr V st o = Some t ->
+  CoreOps.run_op nv st o h =
+  (rs <~ run_ops3 (tr_ops t) ;; x <~ finish (t_kind t) (t_st t) (main_res t rs) ;;
+   st' <~ CoreOps.sweep (snd x) ;; ret (fst x, st')) h.
+Proof. exact run_op_commutes. Qed.
+Print Assumptions C06_extracted_commutes.
+(** the same, explicit: same heap [h'], the proof-level result in the correspondence-level result type,
+    the old pools extended by the returned identity, swept in [h'] *)
+Theorem C06_extracted_commutes_ret : forall V st o t h rs h',
+  view_ok V h -> tr V st o = Some t -> pure_kind (t_kind t) -> run_ops3 (tr_ops t) h = Ret (rs, h') ->
+  CoreOps.run_op nv st o h =
+  Ret ((enc (t_kind t) (main_res t rs), sweep_st h' (new_pools (t_kind t) (t_st t) (main_res t rs))), h').
+Proof. exact run_op_commutes_Ret. Qed.
+Theorem C06_extracted_commutes_err : forall V st o t h e,
+  view_ok V h -> tr V st o = Some t -> run_ops3 (tr_ops t) h = Err e -> CoreOps.run_op nv st o h = Err e.
+Proof. exact run_op_commutes_Err. Qed.
+(** the new pools are the old pools extended by the identities the proof-level run returned: the
+    declared caller strings to the string pool, the returned item (kind [KPush]) to the item pool *)
+Theorem C06_extracted_pools : forall V st o t h rs h',
+  view_ok V h -> tr V st o = Some t -> run_ops3 (tr_ops t) h = Ret (rs, h') ->
+  CoreOps.st_strs (t_st t) = CoreOps.st_strs st ++ (res_ptr3 <$> take (length (t_pre t)) rs) /\
+  CoreOps.st_items (new_pools (t_kind t) (t_st t) (main_res t rs)) =
+    CoreOps.st_items (t_st t) ++ match t_kind t with KPush => [res_ptr3 (main_res t rs)] | _ => [] end.
+Proof. exact pools_after_call. Qed.
+(** the view that reads the heap itself is right; so is the view computed from the abstract state *)
+Theorem C06_extracted_view_heap : forall h, view_ok (hview h) h.
+Proof. exact view_ok_hview. Qed.
+Theorem C06_extracted_view_model : forall h S, Abs3 h S -> view_ok (sview S) h.
+Proof. exact view_ok_sview. Qed.
+(** the decoders of the result encoding never see a result of another shape *)
+Theorem C06_extracted_result_shape : forall V st o t m h r h',
+  tr V st o = Some t -> t_main t = Some m -> run_op3 m h = Ret (r, h') -> shape (t_kind t) r.
+Proof. exact tr_shape. Qed.
+
+(** ACCEPTANCE of a correspondence-level call in pools [st] and model state [S] ([stepR], computed
+    WITHOUT any heap): its translation passes the checker [pre_ok_all3b] of the documented ownership
+    rules; the result is the list model's ([spec_results3] on the translated operations), the next
+    model state is the list model's, the next pools are the old ones extended by the returned
+    identity and swept against the blocks the model owns.  ([post_rules]: the caller reads a
+    returned [char *] only if it is NULL or a readable string, and iterates only over NULL or a
+    container that is not a reference node.) *)
+Theorem C06_extracted_acceptance : forall st S o x st1 S1,
+  stepR st S o = Some (x, st1, S1) <->
+  exists t, tr (sview S) st o = Some t /\
+    pre_ok_all3b S (tr_ops t) = true /\
+    S1 = spec_run3 S (tr_ops t) /\
+    post_rules (t_kind t) S1 (main_res t (spec_results3 S (tr_ops t))) = true /\
+    x = encS (t_kind t) S1 (main_res t (spec_results3 S (tr_ops t))) /\
+    st1 = sweepS S1 (new_pools (t_kind t) (t_st t) (main_res t (spec_results3 S (tr_ops t)))).
+Proof. exact stepR_spec. Qed.
+
+(** ONE STEP of the extracted interpreter from a heap that represents [S], with sane pools *)
+Theorem C06_extracted_step : forall h st S o x st1 S1,
+  Abs3 h S -> PoolsOK h st S -> stepR st S o = Some (x, st1, S1) ->
+  exists h', CoreOps.run_op nv st o h = Ret ((x, st1), h') /\
+             run_ops3 (step_ops st S o) h = Ret (spec_results3 S (step_ops st S o), h') /\
+             S1 = spec_run3 S (step_ops st S o) /\ Abs3 h' S1 /\ PoolsOK h' st1 S1.
+Proof. exact stepR_sim. Qed.
+Print Assumptions C06_extracted_step.
+
+(** C06_history FOR THE INTERPRETER THAT IS EXTRACTED AND EXECUTED.  Every accepted correspondence-level
+    history ([runR]: [stepR] at every step, through the evolving pools and model state), run by
+    [CoreOps.run_ops] from the empty heap with empty pools: every call RETURNS (no memory-error
+    outcome), the per-call results [xs] are those of the list model, the heap reached is the heap
+    [run_ops3] reaches on the translated history, and it represents the model's final state. *)
+Theorem C06_history_extracted : forall ops xs st' S',
+  runR CoreOps.empty_state S0 ops = Some (xs, st', S') ->
+  exists h', CoreOps.run_ops nv CoreOps.empty_state ops empty_heap = Ret ((xs, st'), h') /\
+             run_ops3 (tr_hist CoreOps.empty_state S0 ops) empty_heap =
+               Ret (spec_results3 S0 (tr_hist CoreOps.empty_state S0 ops), h') /\
+             S' = spec_run3 S0 (tr_hist CoreOps.empty_state S0 ops) /\ Abs3 h' S'.
+Proof. exact history_extracted_rules. Qed.
+Print Assumptions C06_history_extracted.
+Theorem C06_history_extracted_from_any_state : forall ops h st S xs st2 S2,
+  Abs3 h S -> PoolsOK h st S -> runR st S ops = Some (xs, st2, S2) ->
+  exists h', CoreOps.run_ops nv st ops h = Ret ((xs, st2), h') /\
+             run_ops3 (tr_hist st S ops) h = Ret (spec_results3 S (tr_hist st S ops), h') /\
+             S2 = spec_run3 S (tr_hist st S ops) /\ Abs3 h' S2 /\ PoolsOK h' st2 S2.
+Proof. exact runR_sim. Qed.
+(** every moment: acceptance is prefix-closed *)
+Theorem C06_history_extracted_prefixes : forall ops1 st S ops2 xs st2 S2,
+  runR st S (ops1 ++ ops2) = Some (xs, st2, S2) ->
+  exists xs1 st1 S1 xs2, runR st S ops1 = Some (xs1, st1, S1) /\ runR st1 S1 ops2 = Some (xs2, st2, S2) /\ xs = xs1 ++ xs2.
+Proof. exact runR_app. Qed.
+(** the item a call returns is a node of the model's forest: pushed handles denote owned blocks *)
+Theorem C06_extracted_pushed_results : forall h S st o t x,
+  Abs3 h S -> tr (sview S) st o = Some t -> t_kind t = KPush -> pre_ok_all3 S (tr_ops t) ->
+  res_ptr3 (main_res t (spec_results3 S (tr_ops t))) = Some x -> x ∈ owned (a_forest (spec_run3 S (tr_ops t))).
+Proof. exact push_owned_tr. Qed.
+(** the driver's oracle for "no allocation failure" *)
+Theorem C06_extracted_oracle : CoreOps.fail_kth 0 = nv.
+Proof. exact fail_kth_0_never. Qed.
+
+(** the ledger of C07 for the extracted interpreter: after every accepted history the live library
+    blocks are exactly the blocks the model owns (the driver's [L<n>] = their number); deleting
+    the remaining roots empties the ledger; caller memory is live and bit-identical *)
+Theorem C07_balanced_extracted : forall ops xs st' S',
+  runR CoreOps.empty_state S0 ops = Some (xs, st', S') ->
+  exists h1 h2,
+    CoreOps.run_ops nv CoreOps.empty_state ops empty_heap = Ret ((xs, st'), h1) /\ Abs3 h1 S' /\
+    (forall b, b ∈ lib_live h1 <-> b ∈ owned (a_forest S')) /\
+    CoreOps.live_count h1 = length (owned (a_forest S')) /\
+    delete_roots (roots (a_forest S')) h1 = Ret (tt, h2) /\ lib_live h2 = ∅ /\ CoreOps.live_count h2 = 0%nat /\
+    (forall b, h_own h1 !! b = Some Foreign -> b ∈ h_live h1 -> b ∈ h_live h2 /\ h_str h2 !! b = h_str h1 !! b).
+Proof. exact ledger_extracted_rules. Qed.
+Print Assumptions C07_balanced_extracted.
+
+(** non-vacuity: a 31-call history in the syntax of the extracted interpreter (handles, string
+    literals, pool strings; arrays, objects with owned and constant keys, a helper, both lookups,
+    replace by key, setters, a returned string that is read, a dead handle, iteration, detach /
+    delete by index and by key) is accepted … *)
+Theorem C06_extracted_nonvacuous_accepted : accepted_rules CoreOpsBridgeEx.exB = true.
+Proof. exact CoreOpsBridgeEx.exB_accepted. Qed.
+(** … the list model's results and final pools are these … *)
+Theorem C06_extracted_nonvacuous_model :
+  match runR CoreOps.empty_state S0 CoreOpsBridgeEx.exB with
+  | Some (xs, st, S') => Some (xs, st, a_forest S') | None => None end =
+  Some (CoreOpsBridgeEx.exB_results, CoreOpsBridgeEx.exB_pools, []).
+Proof. exact CoreOpsBridgeEx.exB_model. Qed.
+(** … the extracted interpreter, RUN ([vm_compute]) from the empty heap, returns exactly these … *)
+Theorem C06_extracted_nonvacuous_run :
+  match CoreOps.run_ops nv CoreOps.empty_state CoreOpsBridgeEx.exB empty_heap with
+  | Ret ((xs, st), h) => Some (xs, st, CoreOps.live_count h)
+  | Err _ => None
+  end = Some (CoreOpsBridgeEx.exB_results, CoreOpsBridgeEx.exB_pools, 0%nat).
+Proof. exact CoreOpsBridgeEx.exB_run. Qed.
+(** … both interpreters, RUN on its first 29 calls (= 31 proof-level operations), end in the same heap … *)
+Theorem C06_extracted_nonvacuous_same_heap :
+  CoreOpsBridgeEx.final_obs (CoreOps.run_ops nv CoreOps.empty_state (take 29 CoreOpsBridgeEx.exB)) =
+  CoreOpsBridgeEx.final_obs (run_ops3 (tr_hist CoreOps.empty_state S0 (take 29 CoreOpsBridgeEx.exB))) /\
+  is_Some (CoreOpsBridgeEx.final_obs (CoreOps.run_ops nv CoreOps.empty_state (take 29 CoreOpsBridgeEx.exB))) /\
+  length (tr_hist CoreOps.empty_state S0 (take 29 CoreOpsBridgeEx.exB)) = 31%nat.
+Proof. exact CoreOpsBridgeEx.exB_same_heap. Qed.
+(** … and the case lines of corpus/C06 and corpus/C07 (those without allocation failure / printer
+    calls), transcribed op by op, are accepted *)
+Theorem C06_extracted_corpus_cases_accepted :
+  accepted_rules CoreOpsBridgeEx.case_C06_f4_insert_self_1 = true /\
+  accepted_rules CoreOpsBridgeEx.case_C06_f4_insert_self_2 = true /\
+  accepted_rules CoreOpsBridgeEx.case_C06_f4_insert_self_3 = true /\
+  accepted_rules CoreOpsBridgeEx.case_C06_first_folded_match_1 = true /\
+  accepted_rules CoreOpsBridgeEx.case_C06_first_folded_match_2 = true /\
+  accepted_rules CoreOpsBridgeEx.case_C06_single_child_replace_then_append_1 = true /\
+  accepted_rules CoreOpsBridgeEx.case_C06_single_child_replace_then_append_2 = true /\
+  accepted_rules CoreOpsBridgeEx.case_C06_single_child_replace_then_append_3 = true /\
+  accepted_rules CoreOpsBridgeEx.case_C07_f5_replace_key_alias_1 = true /\
+  accepted_rules CoreOpsBridgeEx.case_C07_f5_replace_key_alias_2 = true /\
+  accepted_rules CoreOpsBridgeEx.case_C07_f5_replace_key_alias_3 = true /\
+  accepted_rules CoreOpsBridgeEx.case_C07_key_ownership_change_1 = true /\
+  accepted_rules CoreOpsBridgeEx.case_C07_key_ownership_change_2 = true.
+Proof. exact CoreOpsBridgeEx.corpus_cases_accepted. Qed.
